@@ -108,7 +108,16 @@ pub fn observe(ctx: &Ctx, st: &mut Stats, job: &Job) {
             }
         };
         // pull the path data out and compare what the callback saw with qr.data
-        let d = svg.split("<path d=\"").nth(1).and_then(|s| s.split('"').next()).unwrap_or("");
+        // (the document is parsed as XML: attribute order, quoting and white space are the crate's business)
+        let doc = match crate::svgcheck::parse(&svg) {
+            Ok(d) => d,
+            Err(e) => {
+                st.inconclusive(format!("callback spy: the SVG that carries the spy's output does not parse ({}: {}); labels handed to callbacks cannot be observed", e.0, e.1));
+                return;
+            }
+        };
+        let d_owned: String = doc.elems.iter().filter(|e| e.name == "path").filter_map(|e| e.attr("d")).collect::<Vec<_>>().join(" ");
+        let d = d_owned.as_str();
         let mut seen = 0u64;
         for item in d.split('M').skip(1) {
             let (xy, raw) = match item.split_once('h') {
@@ -135,9 +144,14 @@ pub fn observe(ctx: &Ctx, st: &mut Stats, job: &Job) {
             seen += 1;
         }
         let dark = qr.data[..n * n].iter().filter(|m| m.value()).count() as u64;
-        if seen != dark {
-            flag(st, ID, ("callback-count".into(), format!("callback observed for {seen} modules, symbol has {dark} dark modules")), job, false);
+        if seen == 0 && dark > 0 {
+            // the observation channel is broken (nothing the spy wrote came back): not a verdict on the labels
+            st.inconclusive(format!("callback spy: none of the {dark} dark modules came back through the path data; labels handed to callbacks cannot be observed"));
             return;
+        }
+        if seen != dark {
+            // how many sub-paths a layer has is C12's claim, not C15's: recorded, not judged here
+            st.count("callback_count_differs_from_dark_modules", 1);
         }
         st.count("callback_modules_compared", seen);
     }
